@@ -43,7 +43,7 @@ func main() {
 	// the first sets walk through the combinations of defaulted (0 = key omitted in the YAML) and explicit r / p, and through
 	// argon2id memory sizes that are not a multiple of 4*threads; the rest is drawn at random
 	rp := [][2]int{{0, 0}, {0, 2}, {8, 0}, {1, 2}, {0, 3}, {2, 1}, {0, 1}, {8, 3}}
-	ar := [][4]uint32{{1, 8, 1, 32}, {1, 1000, 3, 32}, {2, 65, 2, 16}, {1, 24, 3, 64}, {3, 16, 1, 4}, {1, 8, 1, 4096}, {1, 8, 1, 3100}}
+	ar := [][4]uint32{{1, 8, 1, 32}, {1, 1000, 3, 32}, {2, 65, 2, 16}, {1, 24, 3, 64}, {3, 16, 1, 4}, {1, 8, 1, 4096}, {1, 8, 1, 3100}, {1, 512, 32, 32}, {1, 64, 4, 32}}
 	for i := 0; i < *nsets; i++ {
 		if i%2 == 0 {
 			k := make([]byte, 32)
